@@ -50,6 +50,13 @@ type Storage struct {
 	// Key is StorageKey{contract_address, contract_name} and value is contract composite value.
 	contractUpdates *orderedmap.OrderedMap[interpreter.StorageKey, *interpreter.CompositeValue]
 
+	// replacedContractValues are the contract values of recorded contract updates
+	// which got replaced by a later update of the same contract
+	// (e.g. a contract that is added and then removed again in the same execution).
+	// Such a value will never be written to the account's contract storage map,
+	// so it must be removed from storage when the contract updates are committed.
+	replacedContractValues []*interpreter.CompositeValue
+
 	Ledger atree.Ledger
 
 	memoryGauge common.MemoryGauge
@@ -184,6 +191,12 @@ func (s *Storage) recordContractUpdate(
 	if s.contractUpdates == nil {
 		s.contractUpdates = &orderedmap.OrderedMap[interpreter.StorageKey, *interpreter.CompositeValue]{}
 	}
+
+	previousContractValue, _ := s.contractUpdates.Get(key)
+	if previousContractValue != nil && previousContractValue != contractValue {
+		s.replacedContractValues = append(s.replacedContractValues, previousContractValue)
+	}
+
 	s.contractUpdates.Set(key, contractValue)
 }
 
@@ -217,6 +230,15 @@ func (s *Storage) commitContractUpdates(context interpreter.ValueTransferContext
 	if s.contractUpdates == nil {
 		return
 	}
+
+	// Remove the contract values which were replaced by a later update of the same contract.
+	// They are not referenced by any storage map, and would otherwise stay in storage as unreferenced slabs.
+	for _, contractValue := range s.replacedContractValues {
+		slabID := contractValue.SlabID()
+		contractValue.DeepRemove(context, true)
+		interpreter.RemoveReferencedSlab(context, atree.SlabIDStorable(slabID))
+	}
+	s.replacedContractValues = nil
 
 	for pair := s.contractUpdates.Oldest(); pair != nil; pair = pair.Next() {
 		s.writeContractUpdate(context, pair.Key, pair.Value)
